@@ -117,7 +117,8 @@ inline Plan Gen(uint64_t seed)
    for (int i=0; i<numMut; i++)
    {
       const uint32_t r = fl.below(100);
-           if ((r < 12)&&((t == T_BIN)||(t == T_TMPL)||(t == T_MINI))) p.push_back(std::string(fl.oneIn(2) ? "mut fhdr " : "mut ftail ") + U(fl.below(64)) + " " + U(fl.below(1000)));
+           if ((r < 40)&&((t == T_BIN)||(t == T_MINI)||(t == T_MICRO))&&(enc == 0)&&(r >= 12)) p.push_back(fl.oneIn(3) ? ("mut swordt " + U(fl.below(8)) + " " + U(fl.below(10))) : ("mut sword " + U(fl.below(100000)) + " " + U(fl.below(20))));
+      else if ((r < 12)&&((t == T_BIN)||(t == T_TMPL)||(t == T_MINI))) p.push_back(std::string(fl.oneIn(2) ? "mut fhdr " : "mut ftail ") + U(fl.below(64)) + " " + U(fl.below(1000)));
       else if (r < 45) p.push_back("mut word " + U(fl.below(100000)) + " " + U(fl.below(20)));
       else if (r < 50) p.push_back("mut be16 " + U(fl.below(100000)) + " " + U(fl.below(16)));
       else if (r < 65) p.push_back("mut flip " + U(fl.below(1000000)) + " " + U(fl.below(8)));
@@ -260,6 +261,49 @@ inline void CandidateWords(const std::string & s, std::vector<uint32_t> & offs)
       if ((v <= len+16)||(printable)||((v & 0x7fffffffu) <= len+16)) offs.push_back(o);
    }
 }
+// Independent walker of the documented flattened-Message layout inside default-encoded stream frames:
+//   frame   = [uint32 bodyLength][uint32 encoding][body]
+//   Message = [uint32 protocol][uint32 what][uint32 numFields] then per field [uint32 nameLength][name][uint32 typeCode][uint32 dataLength][data]
+//   data    = fixed-size items back to back | variable-size: [uint32 numItems] then per item [uint32 itemLength][item] | B_MESSAGE_TYPE: per item [uint32 itemLength][Message]
+// It returns the offset of every length / count / type / version word ("structural words"), recursively, and is defensive (it also runs on already rewritten streams).
+inline void WalkMessageWords(const std::string & s, uint32_t beg, uint32_t end, std::vector<uint32_t> & out, int depth)
+{
+   if ((depth > 12)||(end > s.size())||(beg+12 > end)) return;
+   auto rd = [&](uint32_t o) {uint32_t v; memcpy(&v, s.data()+o, 4); return v;};
+   out.push_back(beg); out.push_back(beg+8);   // protocol version, field count   (the what-code is not structural)
+   const uint32_t nf = rd(beg+8); uint32_t o = beg+12;
+   for (uint32_t f=0; (f<nf)&&(f<4096); f++)
+   {
+      if (o+4 > end) return;
+      const uint32_t nl = rd(o); out.push_back(o); if ((uint64_t) o+4+nl+8 > end) return;
+      o += 4+nl; const uint32_t tc = rd(o), dl = rd(o+4); out.push_back(o); out.push_back(o+4); o += 8;
+      if ((uint64_t) o+dl > end) return;
+      const uint32_t dend = o+dl;
+      switch(tc)
+      {
+         case 0x424f4f4c: case 0x42595445: case 0x53485254: case 0x4c4f4e47: case 0x4c4c4e47: case 0x464c4f54: case 0x44424c45: case 0x42505454: case 0x52454354: case 0x504e5452: break;   // BOOL BYTE SHRT LONG LLNG FLOT DBLE BPNT RECT PNTR: fixed-size items
+         case 0x4d534747:   // 'MSGG': [len][Message]*
+            {uint32_t q = o; for (int i=0; (i<4096)&&(q+4 <= dend); i++) {const uint32_t il = rd(q); out.push_back(q); if ((uint64_t) q+4+il > dend) break; WalkMessageWords(s, q+4, q+4+il, out, depth+1); q += 4+il;}}
+         break;
+         default:           // variable-size items: [count] then [len][item]*
+            if (o+4 <= dend) {out.push_back(o); uint32_t q = o+4; const uint32_t ni = rd(o); for (uint32_t i=0; (i<ni)&&(i<4096)&&(q+4 <= dend); i++) {const uint32_t il = rd(q); out.push_back(q); if ((uint64_t) q+4+il > dend) break; q += 4+il;}}
+         break;
+      }
+      o = dend;
+   }
+}
+inline void StructuralWords(const std::string & s, std::vector<uint32_t> & out)
+{
+   const uint32_t len = (uint32_t) s.size(); uint32_t o = 0;
+   while(o+8 <= len)
+   {
+      uint32_t bl, enc; memcpy(&bl, s.data()+o, 4); memcpy(&enc, s.data()+o+4, 4);
+      if ((uint64_t) o+8+bl > len) break;
+      out.push_back(o); out.push_back(o+4);
+      if (enc == 1164862256u) WalkMessageWords(s, o+8, o+8+bl, out, 0);   // 'Enc0'
+      o += 8+bl;
+   }
+}
 inline void Mutate(std::string & s, const std::vector<std::string> & t, Stats & st)
 {
    if ((t.size() < 3)||(s.empty())) return;
@@ -270,6 +314,16 @@ inline void Mutate(std::string & s, const std::vector<std::string> & t, Stats & 
       std::vector<uint32_t> offs; CandidateWords(s, offs); if (offs.empty()) return;
       const uint32_t o = offs[ToU(t[2]) % offs.size()]; uint32_t v; memcpy(&v, s.data()+o, 4);
       const uint32_t nv = BoundaryValue((uint32_t) ToU(t[3]), v, len); memcpy(&s[o], &nv, 4); st.inc("f.corrupt_boundary");
+   }
+   else if (((k == "sword")||(k == "swordt"))&&(t.size() >= 4))
+   {
+      // one structural word (found by the layout walker) gets a boundary value: the property's "every single-field corruption ... in each length/count/type word"
+      std::vector<uint32_t> offs; StructuralWords(s, offs); if (offs.empty()) {st.inc("sword_no_structure"); return;}
+      // "swordt" counts from the END of the stream (the last words of the last frame: where an over-read leaves the buffer) and uses near-miss values
+      const bool tail = (k == "swordt");
+      const uint32_t o = tail ? offs[offs.size()-1-(ToU(t[2]) % std::min<size_t>(offs.size(), 8))] : offs[ToU(t[2]) % offs.size()]; uint32_t v; memcpy(&v, s.data()+o, 4);
+      static const int32_t near[] = {1, -1, 2, 3, 4, -4, 5, 8, -8, 12};
+      const uint32_t nv = tail ? (uint32_t)((int64_t) v + near[ToU(t[3]) % 10]) : BoundaryValue((uint32_t) ToU(t[3]), v, len); memcpy(&s[o], &nv, 4); st.inc(tail ? "f.corrupt_structural_word_tail" : "f.corrupt_structural_word"); st.max("max.structural_words", offs.size());
    }
    else if ((k == "be16")&&(t.size() >= 4))
    {
